@@ -98,7 +98,7 @@ def term(draw, depth, dollar_hex, small=False):
 
 @st.composite
 def expr(draw, depth, dollar_hex):
-    n = draw(st.sampled_from([0, 1, 1, 2, 2, 3, 3, 4, 5, 6]))
+    n = draw(st.sampled_from([0, 1, 1, 2, 2, 3, 3, 4, 5, 6, 7, 9]))
     e = [draw(term(depth, dollar_hex))]
     for _ in range(n):
         op = draw(st.sampled_from(em.OPS))
@@ -321,6 +321,51 @@ def part_exhaustive(ck, shard, nshards, tier):
     flush()
 
 
+LEVEL_OPS = {1: ["*", "/", "%"], 2: ["+", "-"], 3: ["<<", ">>"], 4: ["&"], 5: ["^"], 6: ["|"]}
+
+
+def part_levels(ck, shard, nshards):
+    """every ordering of k distinct precedence levels (k = 2..6), every operator choice per level for the
+    orderings of 5 and 6 levels that are monotone, one representative otherwise: exhaustive over orderings"""
+    s = ck.s
+    seqs = set()
+    for k in range(2, 7):
+        for levels in itertools.permutations(range(1, 7), k):
+            mono = list(levels) == sorted(levels) or list(levels) == sorted(levels, reverse=True)
+            if mono:
+                for ops in itertools.product(*[LEVEL_OPS[l] for l in levels]):
+                    seqs.add(ops)
+            else:
+                seqs.add(tuple(LEVEL_OPS[l][0] for l in levels))
+                seqs.add(tuple(LEVEL_OPS[l][-1] for l in levels))
+    operands = [(256, 17, 51, 7, 1, 1, 2), (1000003, 6, 4, 9, 3, 2, 1), (29, 11, 5, 3, 2, 1, 1)]
+    pending = []
+    idx = 0
+    for seq in sorted(seqs):
+        for tup in operands:
+            idx += 1
+            if idx % nshards != shard:
+                continue
+            e = [("", ("lit", tup[0], str(tup[0]), "dec"))]
+            for k, op in enumerate(seq):
+                e.append(op)
+                e.append(("", ("lit", tup[k + 1], str(tup[k + 1]), "dec")))
+            kind, v = ck.model(e)
+            s.evaluations += 1
+            if kind != "val":
+                s.count("levels.skipped_" + kind)
+                continue
+            s.count("levels.checked")
+            s.count("levels.len=%d" % len(seq))
+            s.nt(("lev",) + seq)
+            pending.append((e, em.render(e), v))
+            if len(pending) >= 150:
+                ck.check_valid(CPUS[0], 64, list(pending))
+                del pending[:]
+    if pending:
+        ck.check_valid(CPUS[0], 64, list(pending))
+
+
 MALFORMED = ["1 +", "1 + * 2", "( 1 + 2", "()", "1 2", "3 * ( 4 + )", "<< 2", "5 %", "1 + ( 2 * ( 3 + 4 )",
              "1 +\t/ 2", "~", "-", "( )", "2 * * 3", "4 & | 1", "1 << << 2", "((((1))) + ", "1 + ()"]
 
@@ -406,6 +451,10 @@ def run(tier, seed, shard, nshards):
     try:
         try:
             part_exhaustive(ck, shard, nshards, tier)
+        except Violation as v:
+            s.violations.append(v.payload)
+        try:
+            part_levels(ck, shard, nshards)
         except Violation as v:
             s.violations.append(v.payload)
         try:
